@@ -143,6 +143,7 @@ def check_jp_report(path: str, language: str, hists: Dict[str, Dict[str, Any]], 
                 out.append(_v("jp.transaction-row-count", sheet=sheet.name, shown=len(shown), expected=len(expected), optional_fee_less_transfers=optional))
             else:
                 remaining = list(expected)
+                matched_instants = []
                 for s in shown_core:
                     stats.rows += 1
                     match = None
@@ -164,13 +165,14 @@ def check_jp_report(path: str, language: str, hists: Dict[str, Dict[str, Any]], 
                         out.append(_v("jp.transaction-row-not-in-input", sheet=sheet.name, shown={k: str(v) for k, v in s.items()}, candidates=[{k: str(v) for k, v in e.items() if k != "ts"} for e in remaining[:3]]))
                         break
                     remaining.remove(match)
+                    matched_instants.append(match["ts"])
                 else:
                     if remaining:
                         out.append(_v("jp.transaction-row-missing", sheet=sheet.name, missing={k: str(v) for k, v in remaining[0].items()}))
-                # rows are in time order (month, day non-decreasing)
-                keys = [(num(s["month"]), num(s["day"])) for s in shown]
-                if keys != sorted(keys):
-                    out.append(_v("jp.rows-not-in-time-order", sheet=sheet.name))
+                    # rows are in time order (instants of the matched input rows non-decreasing; month / day alone may
+                    # legitimately go backwards when rows are written in different UTC offsets)
+                    if matched_instants != sorted(matched_instants):
+                        out.append(_v("jp.rows-not-in-time-order", sheet=sheet.name))
             closing[(asset, year)] = closing_row(sheet)
             if closing[(asset, year)] is None:
                 out.append(_v("jp.closing-balance-cell-not-found", sheet=sheet.name))
